@@ -137,7 +137,7 @@ def last_copy_lines(acks=(1000, 2 * 10**9)):
     return out
 
 
-KINDS = ["g", "g", "q", "d", "p1", "p7", "p40", "p300", "u3", "u64"]
+KINDS = ["g", "g", "q", "d", "p1", "p7", "p40", "p300", "u3", "u64", "r9", "R40"]
 
 
 def burst_lines(rng, reps):
